@@ -523,6 +523,7 @@ func (c *ctx) httpCases() {
 		c.emitHTTP(e, hc, i == 3)
 	}
 	c.announceSendCases(e, r.Fork("asend"), peers)
+	c.httpBursts(r.Fork("bursts"), peers)
 	// hand-made: only unknown protocols; only invalid; undefined CID; an address already carrying the id
 	base := mustCast(rawCidV1(0x55, 0x12, r.Bytes(32)))
 	u := genUnknownAddr(r, peers[0])
@@ -735,4 +736,246 @@ func (c *ctx) p2pCases() {
 		}
 	}
 	_ = pubsub.DefaultMaxMessageSize
+	c.sendBursts(r, ctx, t1, sub2)
+}
+
+// replays of the burst scenarios re-run all of them (they are seeded and take ~2 s)
+var burstReplay = replay{Kind: "burst"}
+
+// burstMsg: small distinct messages of different lengths (a shorter one after a longer one
+// is what a reused encode buffer would corrupt)
+func burstMsg(r *vlib.Rand, i int) message.Message {
+	m := message.Message{Cid: mustCast(rawCidV1(0x55, 0x12, r.Bytes(32)))}
+	for k := 0; k < (5-i)%4; k++ {
+		m.Addrs = append(m.Addrs, r.Bytes(8+r.Intn(20)))
+	}
+	m.ExtraData = r.Bytes(40 - 7*i + r.Intn(5))
+	if i%2 == 0 {
+		m.OrigPeer = samplePeers[i%len(samplePeers)]
+	}
+	return m
+}
+
+// sendBursts: k = 2..5 Send calls of DIFFERENT messages on ONE sender before anything is
+// consumed; then everything is read: the i-th message received must be the i-th sent.
+func (c *ctx) sendBursts(r *vlib.Rand, ctx context.Context, t1 *pubsub.Topic, sub2 *pubsub.Subscription) {
+	// drain what the remote subscriber still has
+	for {
+		dctx, dcancel := context.WithTimeout(ctx, 100*time.Millisecond)
+		_, err := sub2.Next(dctx)
+		dcancel()
+		if err != nil {
+			break
+		}
+	}
+	sub1, err := t1.Subscribe() // a subscriber on the sender's own host sees the very slices Publish was given
+	if err != nil {
+		panic(err)
+	}
+	defer sub1.Cancel()
+	s, err := p2psender.New(nil, "", p2psender.WithTopic(t1))
+	if err != nil {
+		panic(err)
+	}
+	rounds := c.Pick(3, 20)
+	for round := 0; round < rounds; round++ {
+		for k := 2; k <= 5; k++ {
+			var want [][]byte
+			for i := 0; i < k; i++ {
+				m := burstMsg(r, i)
+				want = append(want, runEnc(&m).Bytes)
+				if err := s.Send(ctx, m); err != nil {
+					panic(err)
+				}
+			}
+			c.Eval()
+			c.Count("burst:p2psender")
+			// local subscriber: in order
+			for i := 0; i < k; i++ {
+				rctx, rcancel := context.WithTimeout(ctx, 3*time.Second)
+				pm, err := sub1.Next(rctx)
+				rcancel()
+				if err != nil {
+					c.failOnce("burst-p2p", "p2p-burst:local-subscriber-lost-a-message", fmt.Sprintf("message %d of %d: %v", i+1, k, err), burstReplay)
+					break
+				}
+				if !bytes.Equal(pm.Data, want[i]) {
+					which := "garbage"
+					for j := range want {
+						if bytes.Equal(pm.Data, want[j]) {
+							which = fmt.Sprintf("the content of message %d", j+1)
+						}
+					}
+					var got message.Message
+					derr := got.UnmarshalCBOR(bytes.NewBuffer(pm.Data))
+					c.failOnce("burst-p2p", "p2p-burst:message-altered-by-a-later-send",
+						fmt.Sprintf("%d Send calls on one p2psender before anything was consumed: the subscriber on the topic got %s for message %d (decode: %v)", k, which, i+1, derr), burstReplay)
+					break
+				}
+			}
+			// remote subscriber: all k, any order (a message altered after signing is rejected there)
+			seen := map[int]bool{}
+			for i := 0; i < k; i++ {
+				rctx, rcancel := context.WithTimeout(ctx, 3*time.Second)
+				pm, err := sub2.Next(rctx)
+				rcancel()
+				if err != nil {
+					c.failOnce("burst-p2p-remote", "p2p-burst:remote-subscriber-lost-a-message", fmt.Sprintf("%d messages sent back to back, the remote subscriber got %d: %v", k, i, err), burstReplay)
+					break
+				}
+				for j := range want {
+					if bytes.Equal(pm.Data, want[j]) {
+						seen[j] = true
+					}
+				}
+			}
+			if len(seen) == k {
+				c.Nontrivial(fmt.Sprintf("burst:p2p:%d:%d", k, round))
+			}
+		}
+	}
+	c.fanOut(r, ctx, t1, sub1, s)
+	// the remote subscriber got the fan-out too
+	for {
+		dctx, dcancel := context.WithTimeout(ctx, 100*time.Millisecond)
+		_, err := sub2.Next(dctx)
+		dcancel()
+		if err != nil {
+			break
+		}
+	}
+}
+
+// fanOut: announce.Send over two http senders and a p2psender, three announcements back
+// to back, nothing consumed in between: every sink gets the i-th announcement i-th.
+func (c *ctx) fanOut(r *vlib.Rand, ctx context.Context, t1 *pubsub.Topic, sub1 *pubsub.Subscription, ps *p2psender.Sender) {
+	var mu sync.Mutex
+	bodies := map[string][][]byte{}
+	srv := httptest.NewServer(http.HandlerFunc(func(w http.ResponseWriter, rq *http.Request) {
+		b, _ := io.ReadAll(rq.Body)
+		mu.Lock()
+		bodies[rq.URL.Path] = append(bodies[rq.URL.Path], b)
+		mu.Unlock()
+		w.WriteHeader(http.StatusNoContent)
+	}))
+	defer srv.Close()
+	id := genPeer(r)
+	ua, _ := url.Parse(srv.URL + "/a")
+	ub, _ := url.Parse(srv.URL + "/b")
+	ha, err := httpsender.New([]*url.URL{ua}, id)
+	if err != nil {
+		panic(err)
+	}
+	hb, err := httpsender.New([]*url.URL{ub}, id)
+	if err != nil {
+		panic(err)
+	}
+	defer ha.Close()
+	defer hb.Close()
+	p2p := p2pComponent(id)
+	var wantHTTP, wantP2P [][]byte
+	for i := 0; i < 3; i++ {
+		x := mustCast(rawCidV1(0x55, 0x12, r.Bytes(32)))
+		var maddrs []multiaddr.Multiaddr
+		var withID, plain [][]byte
+		for k := 0; k < 3-i; k++ {
+			a := genKnownAddr(r, id)
+			ma, _ := multiaddr.NewMultiaddrBytes(a.B)
+			maddrs = append(maddrs, ma)
+			plain = append(plain, a.B)
+			withID = append(withID, append(append([]byte{}, a.B...), p2p...))
+		}
+		mh := message.Message{Cid: x, Addrs: withID}
+		mp := message.Message{Cid: x, Addrs: plain}
+		wantHTTP = append(wantHTTP, runEnc(&mh).Bytes)
+		wantP2P = append(wantP2P, runEnc(&mp).Bytes)
+		if err := announce.Send(ctx, x, maddrs, ha, ps, hb); err != nil {
+			c.failOnce("fanout", "announce-send-fanout:error", err.Error(), burstReplay)
+			return
+		}
+	}
+	c.Eval()
+	c.Count("burst:announce.Send-fan-out")
+	for _, path := range []string{"/a", "/b"} {
+		got := bodies[path]
+		for i := range wantHTTP {
+			if i >= len(got) || !bytes.Equal(got[i], wantHTTP[i]) {
+				c.failOnce("fanout", "announce-send-fanout:http-sink-differs", fmt.Sprintf("announce.Send over several senders: http sink %s did not get announcement %d as sent", path, i+1), burstReplay)
+				break
+			}
+		}
+	}
+	for i := range wantP2P {
+		rctx, rcancel := context.WithTimeout(ctx, 3*time.Second)
+		pm, err := sub1.Next(rctx)
+		rcancel()
+		if err != nil || !bytes.Equal(pm.Data, wantP2P[i]) {
+			c.failOnce("fanout", "announce-send-fanout:pubsub-sink-differs", fmt.Sprintf("announce.Send over several senders: the topic subscriber did not get announcement %d as sent (%v)", i+1, err), burstReplay)
+			break
+		}
+	}
+	c.Nontrivial("fanout")
+}
+
+// httpBursts: k concurrent Send calls of different messages on one httpsender against a
+// server that reads slowly; every body must be exactly one of the messages, each once.
+// Then announce.Send fans one announcement out over two http senders and a p2psender.
+func (c *ctx) httpBursts(r *vlib.Rand, peers []peer.ID) {
+	var mu sync.Mutex
+	var bodies [][]byte
+	srv := httptest.NewServer(http.HandlerFunc(func(w http.ResponseWriter, rq *http.Request) {
+		time.Sleep(25 * time.Millisecond) // the body is still being produced / queued on the client side
+		b, _ := io.ReadAll(rq.Body)
+		mu.Lock()
+		bodies = append(bodies, b)
+		mu.Unlock()
+		w.WriteHeader(http.StatusNoContent)
+	}))
+	defer srv.Close()
+	u, _ := url.Parse(srv.URL)
+	s, err := httpsender.New([]*url.URL{u}, peers[0])
+	if err != nil {
+		panic(err)
+	}
+	defer s.Close()
+	for round := 0; round < c.Pick(3, 20); round++ {
+		for k := 2; k <= 5; k++ {
+			bodies = nil
+			var want [][]byte
+			var wg sync.WaitGroup
+			errs := make([]error, k)
+			for i := 0; i < k; i++ {
+				m := burstMsg(r, i)
+				m.Addrs = nil // addresses would need to be multiaddrs here
+				want = append(want, runEnc(&m).Bytes)
+				wg.Add(1)
+				go func(i int, m message.Message) {
+					defer wg.Done()
+					errs[i] = s.Send(context.Background(), m)
+				}(i, m)
+			}
+			wg.Wait()
+			c.Eval()
+			c.Count("burst:httpsender")
+			matched := map[int]int{}
+			for _, b := range bodies {
+				for j := range want {
+					if bytes.Equal(b, want[j]) {
+						matched[j]++
+					}
+				}
+			}
+			ok := len(bodies) == k && len(matched) == k
+			for _, e := range errs {
+				if e != nil {
+					ok = false
+				}
+			}
+			if !ok {
+				c.failOnce("burst-http", "http-burst:concurrent-sends:bodies-differ", fmt.Sprintf("%d concurrent Send calls on one httpsender: server got %d bodies, %d of the %d messages intact (errors %v)", k, len(bodies), len(matched), k, errs), burstReplay)
+			} else {
+				c.Nontrivial(fmt.Sprintf("burst:http:%d:%d", k, round))
+			}
+		}
+	}
 }
